@@ -1,0 +1,31 @@
+// Copyright 2021 TiKV Project Authors.
+//
+// Licensed under the Apache License, Version 2.0 (the "License");
+// you may not use this file except in compliance with the License.
+// You may obtain a copy of the License at
+//
+//     http://www.apache.org/licenses/LICENSE-2.0
+//
+// Unless required by applicable law or agreed to in writing, software
+// distributed under the License is distributed on an "AS IS" BASIS,
+// See the License for the specific language governing permissions and
+// limitations under the License.
+
+//go:build verif
+// +build verif
+
+// Machine-checked contracts (checked by /verif/govc; comment-only file).
+package typeutil
+
+// The big-endian codec is described by an abstract decoder u64dec over byte strings
+// (encoding/binary itself is outside the verified code: these two contracts are assumed).
+//@ func BytesToUint64
+//@   assumed
+//@   ensures (len(b) == 8) <==> (r1 == nil)
+//@   ensures r1 == nil ==> r0 == uf("u64dec", str(b))
+//@   ensures r1 != nil ==> r0 == 0
+//@   modifies nothing
+//@ func Uint64ToBytes
+//@   assumed
+//@   ensures len(result) == 8 && result != nil && uf("u64dec", str(result)) == v
+//@   modifies nothing
